@@ -13,10 +13,14 @@ import (
 	"io"
 	"log"
 	"net"
+	"os"
+	"runtime"
 	"sort"
 	"strings"
 	"sync"
+	"sync/atomic"
 	"testing/synctest"
+	"time"
 
 	"verif/harness/wire"
 
@@ -152,8 +156,50 @@ func (c *Ctl) park(point string, conn *go9p.Conn, req *go9p.SrvReq) Cmd {
 	return <-p.ch
 }
 
-// Wait runs the system until every goroutine is durably blocked.
-func (c *Ctl) Wait() { synctest.Wait() }
+// Wait runs the system until every goroutine is durably blocked.  A goroutine waiting for a mutex is
+// not durably blocked, so if the library holds a lock across a schedule point (or spins), Wait never
+// returns: a real-time watchdog outside the bubble then dumps all goroutines and ends the process.
+func (c *Ctl) Wait() {
+	atomic.AddInt64(&waitDepth, 1)
+	atomic.AddInt64(&heartbeat, 1)
+	synctest.Wait()
+	atomic.AddInt64(&heartbeat, 1)
+	atomic.AddInt64(&waitDepth, -1)
+}
+
+var heartbeat, waitDepth int64
+var watchdogOnce sync.Once
+
+// StartWatchdog must be called from outside any bubble (real time).
+func StartWatchdog() {
+	watchdogOnce.Do(func() {
+		secs := 20
+		if v := os.Getenv("VERIF_STALL_SECS"); v != "" {
+			fmt.Sscan(v, &secs)
+		}
+		go func() {
+			last, since := int64(-1), 0
+			for {
+				time.Sleep(time.Second)
+				h := atomic.LoadInt64(&heartbeat)
+				if h != last || atomic.LoadInt64(&waitDepth) == 0 {
+					last, since = h, 0
+					continue
+				}
+				since++
+				if since >= secs {
+					buf := make([]byte, 8<<20)
+					n := runtime.Stack(buf, true)
+					if p := os.Getenv("VERIF_STALL"); p != "" {
+						_ = os.WriteFile(p, buf[:n], 0o644)
+					}
+					fmt.Fprintf(os.Stderr, "\nVERIF-STALL: the system under test did not become quiescent for %d s\n", secs)
+					os.Exit(97)
+				}
+			}
+		}()
+	})
+}
 
 // Parked returns the currently parked goroutines (call after Wait), sorted by key.
 func (c *Ctl) Parked() []*Parked {
